@@ -3,7 +3,32 @@
    A site outside the fragment falls back on the reference definition and is flagged [translated_* = false]. *)
 Require Import Verif.Model.Base Verif.Model.Decision Verif.Model.GoSem Verif.Model.Writers Verif.Model.GenRef.
 
-(* untranslatable: dualWriter.Get: /repo/slog/writers.go:68:38: nil test on a value whose translation does not distinguish nil (list member): ed != nil *)
-Definition route := GenRef.route_ref.
-Definition translated_route := false.
+(* dualWriter.Get  (routing of a severity; writer lists are lists of members, s.leveled is a nil-able map) *)
+Definition route (m_mLevelUseErrorDevice : list (Z * bool)) (g_discardWriter s_Normal s_Error : list member) (s_leveled : gomap (list member)) (lvl : Z) : list member :=
+  let w := (@nil member) in
+  if (lvl =? 7)
+  then g_discardWriter
+  else if (negb (is_nil s_leveled))
+  then match map_get s_leveled lvl with
+    | Some ed => let ok := true in
+      if (ok && (0 <? (Z.of_nat (List.length ed))))
+      then ed
+      else match lookupZ m_mLevelUseErrorDevice lvl with
+      | Some _ => s_Error
+      | None => s_Normal
+      end
+    | None => let ed := (@nil member) in
+      let ok := false in
+      if (ok && (0 <? (Z.of_nat (List.length ed))))
+      then ed
+      else match lookupZ m_mLevelUseErrorDevice lvl with
+      | Some _ => s_Error
+      | None => s_Normal
+      end
+    end
+  else match lookupZ m_mLevelUseErrorDevice lvl with
+    | Some _ => s_Error
+    | None => s_Normal
+    end.
+Definition translated_route := true.
 
